@@ -427,6 +427,11 @@ class StmtMixin:
         fields = {}
         allocs = 0
         from .solve import has_quantifier
+        self._loop_effects = set()
+        for r in outs:
+            for e_ in r.st.trace[len(st.trace):]:
+                self._loop_effects.add(e_.name)
+                self._loop_effects |= set(e_.inner)
         for r in outs:
             allocs = max(allocs, r.st.nalloc - st.nalloc)
             for f, o in r.st.writes[w0:]:
@@ -583,6 +588,10 @@ class StmtMixin:
             pass
         self._pre_names = self.state_names(st0)
         fields, allocs = self.loop_frame(probe, body, ivar=i.decl().name())
+        loop_effects = set(self._loop_effects)
+        if loop_effects:
+            # iterations before the current one may already have produced these effects
+            pass
 
         def inv_terms(state, idx):
             binds = {k: v for k, v in state.env.items() if isinstance(v, V)}
@@ -601,6 +610,8 @@ class StmtMixin:
             nf = fresh_int('front'); sh.assume(nf >= st0.front); sh.front = nf
         self.havoc_frame(sh, fields, names, pre_env, st0)
         sh.assume(z3.And(0 <= i, i < n))
+        if loop_effects:
+            sh.trace.append(Effect("loop", [], s.lineno, None, inner=sorted(loop_effects)))
         self.loop_unchanged(sh, st0, it)
         for e, f in inv_terms(sh, i):
             sh.assume(f)
@@ -626,6 +637,8 @@ class StmtMixin:
             sa.assume(f)
         for e in lc.get("exit_assume", []):
             sa.assume(self.spec(sa, st0, e, {}))
+        if loop_effects:
+            sa.trace.append(Effect("loop", [], s.lineno, None, inner=sorted(loop_effects)))
         out.append(Res(sa))
         out += breaks
         return out
@@ -677,6 +690,8 @@ class StmtMixin:
         if allocs:
             nf = fresh_int('front'); sh.assume(nf >= st0.front); sh.front = nf
         self.havoc_frame(sh, fields, names, pre_env, st0)
+        if self._loop_effects:
+            sh.trace.append(Effect("loop", [], s.lineno, None, inner=sorted(self._loop_effects)))
         for e, f in inv_terms(sh):
             sh.assume(f)
         exits = []
